@@ -444,3 +444,49 @@ Print Assumptions C16_cartesian_diagonal_order.
 Example C16_head_cons_nonvacuous : [5; 6] = head [5; 6] :: head_remove [5; 6] /\ [5; 6] = tail_remove [5; 6] ++ [tail [5; 6]].
 Proof. exact ex_head_cons_nonvacuous. Qed.
 Print Assumptions C16_head_cons_nonvacuous.
+
+(* ---- the same laws on the element semantics of the C01 core (Model/Values.v) ------------------------------
+   Ṙ m ∞ z U and the stack rotations „ ‟ as Machine.v / RefSem.v execute them, for values of every kind. *)
+From Vy Require Model.Values Proofs.C16Core.
+
+Theorem C16_core_reverse_involution : forall l,
+  exists r, Values.reverse_v (Values.VList l) = Some r /\ Values.reverse_v r = Some (Values.VList l).
+Proof. exact C16Core.reverse_list_involutive. Qed.
+Print Assumptions C16_core_reverse_involution.
+
+Theorem C16_core_reverse_involution_str : forall t,
+  exists r, Values.reverse_v (Values.VStr t) = Some r /\ Values.reverse_v r = Some (Values.VStr t).
+Proof. exact C16Core.reverse_str_involutive. Qed.
+Print Assumptions C16_core_reverse_involution_str.
+
+Theorem C16_core_rotations_inverse : forall l, l <> [] ->
+  (exists m, C16Core.rot_down l = Some m /\ C16Core.rot_up m = Some l) /\
+  (exists m, C16Core.rot_up l = Some m /\ C16Core.rot_down m = Some l).
+Proof. intros l H. split; [exact (C16Core.rot_down_up l H)|exact (C16Core.rot_up_down l H)]. Qed.
+Print Assumptions C16_core_rotations_inverse.
+
+Theorem C16_core_rotations_are_the_elements : forall s,
+  Values.elem_more 8222%N s = Values.stack_op C16Core.rot_up s /\ Values.elem_more 8223%N s = Values.stack_op C16Core.rot_down s.
+Proof. exact C16Core.rotations_are_the_elements. Qed.
+Print Assumptions C16_core_rotations_are_the_elements.
+
+Theorem C16_core_mirror_palindrome : forall l : list Values.value,
+  rev (l ++ rev l) = l ++ rev l /\ rev (l ++ rev (removelast l)) = l ++ rev (removelast l).
+Proof. intro l. split; [exact (C16Core.mirror_palindrome l)|exact (C16Core.palindromise_palindrome l)]. Qed.
+Print Assumptions C16_core_mirror_palindrome.
+
+Theorem C16_core_zip : forall la lb,
+  Values.zip0 la la = map (fun x => Values.VList [x; x]) la /\ length (Values.zip0 la lb) = Nat.max (length la) (length lb).
+Proof. intros la lb. split; [exact (C16Core.zip0_self la)|exact (C16Core.zip0_length la lb)]. Qed.
+Print Assumptions C16_core_zip.
+
+Theorem C16_core_uniquify : forall eqb l seen x,
+  In x (Values.nodup_by eqb seen l) -> In x l /\ existsb (eqb x) seen = false.
+Proof. intros eqb l seen x H. split; [exact (C16Core.nodup_by_sublist eqb l seen x H)|exact (C16Core.nodup_by_fresh eqb l seen x H)]. Qed.
+Print Assumptions C16_core_uniquify.
+
+Example C16_core_rotate_example :
+  C16Core.stk_after (Values.elem_more 8222%N) [Values.VInt 3; Values.VInt 2; Values.VInt 1] = Some [Values.VInt 1; Values.VInt 3; Values.VInt 2]
+  /\ C16Core.stk_after (Values.elem_more 8223%N) [Values.VInt 1; Values.VInt 3; Values.VInt 2] = Some [Values.VInt 3; Values.VInt 2; Values.VInt 1].
+Proof. exact C16Core.rotate_example. Qed.
+Print Assumptions C16_core_rotate_example.
